@@ -32,6 +32,7 @@ type Config struct {
 	Bounds     []string
 	Concretize int // max range for symbolic value concretisation
 	AcceptPanic bool
+	BVIntsOff    bool // //vf:bvints off
 	SymIndexFork bool // //vf:symindex fork: a load through a symbolic index forks per feasible index instead of building an ite chain
 	TierInt     int
 	Wall        time.Duration
@@ -286,7 +287,8 @@ func (w *Worker) decideN(conds []*Term, why string) int {
 		if st.refuted(c) {
 			continue
 		}
-		if ref, fe := st.domainCheck(c); ref {
+		if dbgOff["domain"] {
+		} else if ref, fe := st.domainCheck(c); ref {
 			continue
 		} else if fe {
 			feas = append(feas, alt{i: i})
